@@ -25,9 +25,11 @@ CONSTANTS NF,        \* top-level fields of the resource
           MaxSteps,  \* client steps per behaviour
           Mutants    \* set of seeded defects explored besides "none"
 
-VARIABLES reg, streams, obs, steps, mut, caught
+VARIABLES reg, streams, obs, steps, mut, caught,
+          timer, tv    \* timed behaviour started by a TimedUpdate: "off" | "armed" | "stale" (superseded, but a defective
+                       \* server still lets it fire), and the value it will write
 
-vars == <<reg, streams, obs, steps, mut, caught>>
+vars == <<reg, streams, obs, steps, mut, caught, timer, tv>>
 
 Vals  == [1..NF -> 0..MaxId]
 Names == {"a", "b"}
@@ -41,7 +43,8 @@ G(v) == [ok |-> TRUE, v |-> v]
 
 \* what the harness logs about a stream before touching it
 Snap(s) == [sid |-> s.sid, name |-> s.name, uo |-> s.uo, fresh |-> s.nread = 0, quiet |-> s.pending = 0,
-            opened |-> FALSE, awaited |-> FALSE, timeout |-> FALSE, ended |-> IF s.dead THEN "EOF" ELSE "", vopen |-> s.vopen, msgs |-> <<>>]
+            opened |-> FALSE, awaited |-> FALSE, timeout |-> FALSE, ended |-> IF s.dead THEN "EOF" ELSE "", vopen |-> s.vopen, msgs |-> <<>>,
+            mask |-> M(TRUE, <<>>), sub |-> Zero]
 
 \* the harness waits for a change carrying want: it reads the queue up to and including the first such change
 FirstIdx(q, want) == IF \E k \in 1..Len(q) : q[k].v = want
@@ -61,6 +64,8 @@ Init ==
   /\ steps = 0
   /\ mut \in {"none"} \cup Mutants
   /\ caught = FALSE
+  /\ timer = "off"
+  /\ tv = Zero
 
 Other(a, b) == CHOOSE w \in Vals : w # a /\ w # b
 
@@ -70,6 +75,7 @@ Update(x, m, reject, r, echo, inter, interOld) ==
   IF reject
     THEN LET newreg == IF mut = "rejected-update-writes" THEN x ELSE reg IN
          /\ reg' = newreg
+         /\ UNCHANGED <<timer, tv>>
          /\ streams' = streams
          /\ obs' = base @@ [code |-> "InvalidArgument", resp |-> Zero, post |-> G(newreg),
                             streams |-> [j \in 1..Len(streams) |-> Snap(streams[j])]]
@@ -86,6 +92,8 @@ Update(x, m, reject, r, echo, inter, interOld) ==
           aw  == [j \in 1..Len(streams) |-> Await(fed[j], resp)]
       IN
       /\ reg' = r
+      /\ timer' = (IF timer = "armed" THEN (IF mut = "late-timer-overwrites" THEN "stale" ELSE "off") ELSE timer)
+      /\ tv' = tv
       /\ streams' = [j \in 1..Len(streams) |->
                        IF seenChanged THEN aw[j].next ELSE [fed[j] EXCEPT !.pending = @ + 1]]
       /\ obs' = base @@ [code |-> "OK", resp |-> resp, post |-> G(r),
@@ -94,7 +102,7 @@ Update(x, m, reject, r, echo, inter, interOld) ==
 \* ---- Get --------------------------------------------------------------------
 Get(m) ==
   /\ reg' = (IF mut = "get-writes" THEN Project(reg, m, Zero) ELSE reg)
-  /\ UNCHANGED streams
+  /\ UNCHANGED <<streams, timer, tv>>
   /\ obs' = [op |-> "Get", pre |-> G(reg), post |-> G(reg'), code |-> "OK", mask |-> m, sub |-> Zero,
              resp |-> IF mut = "get-ignores-mask" THEN reg ELSE Project(reg, m, Zero),
              streams |-> [j \in 1..Len(streams) |-> Snap(streams[j])]]
@@ -111,6 +119,7 @@ Open(uo, name, initName) ==
       snap == [Snap(s0) EXCEPT !.opened = TRUE, !.awaited = readOne, !.timeout = readOne /\ got = <<>>, !.msgs = got]
   IN
   /\ Len(streams) < 2
+  /\ UNCHANGED <<timer, tv>>
   /\ reg' = reg
   /\ streams' = Append(streams, s1)
   /\ obs' = [op |-> "OpenPull", pre |-> G(reg), post |-> G(reg), code |-> "OK", mask |-> M(TRUE, <<>>), sub |-> Zero,
@@ -119,6 +128,7 @@ Open(uo, name, initName) ==
 \* ---- CloseStream ------------------------------------------------------------
 Close(i) ==
   /\ i \in 1..Len(streams)
+  /\ UNCHANGED <<timer, tv>>
   /\ reg' = reg
   /\ streams' = [j \in 1..(Len(streams) - 1) |-> IF j < i THEN streams[j] ELSE streams[j + 1]]
   /\ obs' = [op |-> "CloseStream", pre |-> G(reg), post |-> G(reg), code |-> "OK", mask |-> M(TRUE, <<>>), sub |-> Zero,
@@ -127,10 +137,39 @@ Close(i) ==
 
 \* ---- another record of the same collection is deleted / created ------------------
 OtherRecord ==
+  /\ UNCHANGED <<timer, tv>>
   /\ reg' = reg
   /\ streams' = [j \in 1..Len(streams) |-> [streams[j] EXCEPT !.dead = @ \/ mut = "other-delete-ends-streams"]]
   /\ obs' = [op |-> "Other", pre |-> G(reg), post |-> G(reg), code |-> "OK", mask |-> M(TRUE, <<>>), sub |-> Zero,
              resp |-> Zero, streams |-> [j \in 1..Len(streams) |-> Snap(streams[j])]]
+
+\* ---- timed behaviour ------------------------------------------------------------
+\* an Update carrying a duration: stores a start value r and will write w when the time is up
+TimedUpdate(r, w) ==
+  LET fed == [j \in 1..Len(streams) |->
+                [streams[j] EXCEPT !.q = IF streams[j].dead THEN @ ELSE @ \o <<[name |-> streams[j].name, v |-> r, ct |-> "after-open"]>>]]
+      aw  == [j \in 1..Len(streams) |-> Await(fed[j], r)]     \* the client consumes the update's own change
+      changed == r # reg
+  IN
+  /\ timer = "off"
+  /\ reg' = r /\ timer' = "armed" /\ tv' = w
+  /\ streams' = [j \in 1..Len(streams) |-> IF changed THEN aw[j].next ELSE [fed[j] EXCEPT !.pending = @ + 1]]
+  /\ obs' = [op |-> "TimedUpdate", pre |-> G(reg), post |-> G(r), code |-> "OK", mask |-> M(TRUE, <<>>), sub |-> Zero,
+             resp |-> r, streams |-> [j \in 1..Len(streams) |-> IF changed THEN aw[j].snap ELSE Snap(streams[j])]]
+
+\* time passes; the client then reads whatever arrived on the streams without waiting
+Wait ==
+  LET fires == timer \in {"armed", "stale"}
+      newreg == IF fires THEN tv ELSE reg
+      fed == [j \in 1..Len(streams) |-> IF fires /\ ~streams[j].dead
+                                          THEN [streams[j] EXCEPT !.q = @ \o <<[name |-> streams[j].name, v |-> tv, ct |-> "after-open"]>>]
+                                          ELSE streams[j]]
+  IN
+  /\ reg' = newreg /\ timer' = "off" /\ tv' = tv
+  /\ streams' = [j \in 1..Len(streams) |-> [fed[j] EXCEPT !.q = <<>>, !.nread = @ + Len(fed[j].q)]]
+  /\ obs' = [op |-> "Wait", pre |-> G(reg), post |-> G(newreg), code |-> "OK", mask |-> M(TRUE, <<>>), sub |-> Zero,
+             resp |-> Zero, armed |-> (timer = "armed"),
+             streams |-> [j \in 1..Len(streams) |-> [Snap(streams[j]) EXCEPT !.msgs = fed[j].q]]]
 
 Step ==
   \* the update mask and the written value do not influence the reference machine (business rules are
@@ -145,6 +184,8 @@ Step ==
   \/ \E uo \in BOOLEAN, name \in Names, initName \in Names : (uo => initName = name) /\ Open(uo, name, initName)
   \/ \E i \in 1..2 : Close(i)
   \/ OtherRecord
+  \/ TimedUpdate(Other(reg, reg), Other(reg, Other(reg, reg)))   \* one representative: start value # target # current
+  \/ Wait
 
 Next ==
   /\ steps < MaxSteps
